@@ -23,7 +23,8 @@ def run_tlc(module, cfg, env=None, workers=1, timeout=900, extra=(), heap="2g", 
     meta = os.path.join("/dev/shm" if os.path.isdir("/dev/shm") else RUN, "lsf-tlc-" + uuid.uuid4().hex[:10])
     os.makedirs(meta, exist_ok=True)
     gc = ["-XX:+UseParallelGC"] if workers > 1 else ["-XX:+UseSerialGC", "-XX:ActiveProcessorCount=2"]
-    cmd = ["java"] + gc + list(jopts) + ["-DTLA-Library=" + SPEC, "-Xmx" + heap, "-Xss16m", "-cp", JAR, "tlc2.TLC",
+    # (TLC leaves tlc-* scratch directories under java.io.tmpdir: keep them inside the metadir, which is removed below)
+    cmd = ["java"] + gc + list(jopts) + ["-Djava.io.tmpdir=" + meta, "-DTLA-Library=" + SPEC, "-Xmx" + heap, "-Xss16m", "-cp", JAR, "tlc2.TLC",
            "-workers", str(workers), "-metadir", meta, "-noGenerateSpecTE", "-config", cfg] + list(extra) + [module]
     e = dict(os.environ)
     e.update(env or {})
